@@ -111,6 +111,24 @@ struct Ghost {
     cur: [Option<usize>; NAMES],
 }
 
+/// no slot that is the binding in force of some name may sit in the queue of reclamation candidates
+fn live_slots_not_queued(sm: &SymbolMap, g: &Ghost) -> bool {
+    let mut i = 0;
+    while i < NAMES {
+        if let Some(s) = g.cur[i] {
+            let mut j = 0;
+            while j < sm.free_list.shadowed_slots.len() {
+                if sm.free_list.shadowed_slots[j] == s {
+                    return false;
+                }
+                j += 1;
+            }
+        }
+        i += 1;
+    }
+    true
+}
+
 fn agrees(sm: &SymbolMap, g: &Ghost) -> bool {
     let mut i = 0;
     while i < NAMES {
@@ -175,6 +193,7 @@ fn rollback_body(n2: u32, ftwo: bool) {
     kani::cover!(f1 == 3, "failed evaluation introduced a new name");
     vassert!(sm.len() == offset, "roll-back left slots of the failed evaluation behind");
     vassert!(agrees(&sm, &g), "after a failed evaluation a name no longer resolves as before it");
+    vassert!(live_slots_not_queued(&sm, &g), "after a failed evaluation the slot of a live binding is queued for reclamation");
     core::mem::forget(sm);
 }
 sym_harness!(sym_rollback_1_1, { rollback_body(0, false) });
@@ -200,6 +219,7 @@ sym_harness!(sym_rollback_redef_twice, {
     kani::cover!(f1 == 2, "failed evaluation introduced a new name");
     vassert!(sm.len() == offset, "roll-back left slots of the failed evaluation behind");
     vassert!(agrees(&sm, &g), "after a failed evaluation a name no longer resolves as before it");
+    vassert!(live_slots_not_queued(&sm, &g), "after a failed evaluation the slot of a live binding is queued for reclamation");
     core::mem::forget(sm);
 });
 
